@@ -9,9 +9,12 @@ package marshal // import "mellium.im/xmpp/internal/marshal"
 import (
 	"bytes"
 	"encoding/xml"
+	"errors"
 
 	"mellium.im/xmlstream"
 )
+
+var errNotStart = errors.New("marshal: value does not begin with a start element")
 
 // BUG(ssw): This package is very inefficient, see https://mellium.im/issue/38.
 
@@ -111,14 +114,35 @@ func EncodeXML(w xmlstream.TokenWriter, v interface{}) error {
 // returning.
 func EncodeXMLElement(w xmlstream.TokenWriter, v interface{}, start xml.StartElement) error {
 	if wt, ok := v.(xmlstream.WriterTo); ok {
-		_, err := wt.WriteXML(w)
-		return err
+		if _, ok := v.(xmlstream.Marshaler); !ok {
+			// There is no way to replace the outermost tag of a type that can
+			// only write itself.
+			_, err := wt.WriteXML(w)
+			return err
+		}
 	}
 	d, err := tokenDecoder(v)
 	if err != nil {
 		return err
 	}
-	_, err = xmlstream.Copy(w, translatedReader{Decoder: d})
+
+	// Replace the outermost tag of the encoding with start (keeping any
+	// attributes of the value itself, like encoding/xml does).
+	tok, err := d.Token()
+	if err != nil {
+		return err
+	}
+	outer, ok := tok.(xml.StartElement)
+	if !ok {
+		return errNotStart
+	}
+	start = start.Copy()
+	for _, attr := range outer.Attr {
+		if !isNSDecl(attr) {
+			start.Attr = append(start.Attr, attr)
+		}
+	}
+	_, err = xmlstream.Copy(w, xmlstream.Wrap(xmlstream.Inner(translatedReader{Decoder: d}), start))
 	if err != nil {
 		return err
 	}
